@@ -192,7 +192,10 @@ inline std::vector<u64> domain(int n, bool lite)
 template <class BF, std::size_t... I>
 BF il_build(std::vector<typename BF::element_type> const &v, std::index_sequence<I...>)
 {
-  return BF{v[I]...}; // the user-facing syntax; BF{} is the empty list
+  if constexpr (sizeof...(I) == 0)
+    return BF(typename BF::initializer_list_type{}); // (BF{} would become a default constructor should one ever be added)
+  else
+    return BF{v[I]...}; // the user-facing syntax
 }
 template <class BF, std::size_t J> BF il_n(std::vector<typename BF::element_type> const &v)
 {
@@ -349,7 +352,10 @@ template <class E, class W, int N> struct inst
           return s.count(idx(e)) != 0;
         });
         expect(r, s, "construct", "init(f)");
-        VRT_CHECK(calls == N, "construct:init_calls", "init called the function %d times for %d enumerators", calls, N);
+        // audit class C: the documentation ("Every bit of Result with index e is set to _function(e)") does not
+        // promise how often (or in which order) the function is invoked -- information only, never a verdict
+        if (calls != N)
+          vrt::count("info:construct:init_calls");
       }
       {
         BF r(BF::null());
@@ -731,8 +737,9 @@ template <class E, class W, int N> struct inst
               ref p = x[en(e)];
               ref q = x[en(e)]; // two proxies for the same bit
               p = q;
-              q = std::move(p);
               VRT_CHECK(static_cast<bool>(p) == src && static_cast<bool>(q) == src, "proxy_assign:same_bit_two_proxies:return", "%s: p = q", what.c_str());
+              q = std::move(p); // p is moved-from now: its state is not inspected (audit class C)
+              VRT_CHECK(static_cast<bool>(q) == src, "proxy_assign:same_bit_two_proxies:return", "%s: q = std::move(p)", what.c_str());
               verify_assign(1, "same_bit_two_proxies", x, s, what);
             }
           }
